@@ -386,8 +386,14 @@ def rule_e(repo, res):
     res.check(ok, "C24.e", "Registry.register:append-in-order", "%s:Registry.register_test_case_generator" % tm.rel, "registration must append (import order = generation order)", by="list append")
     # normalise: names from the function name and the position
     nm, nf = repo.func("test_cases:normalise_test_case_generator")
-    t = norm(nf)
-    ok = "value.case_name = f.__name__" in t and "value.subcase_name = str(i)" in t
+    fparam = nf.args.args[0].arg
+    ok = False
+    for lp in ast.walk(nf):
+        if isinstance(lp, ast.For) and isinstance(lp.iter, ast.Call) and dotted(lp.iter.func) == "enumerate" and isinstance(lp.target, ast.Tuple) and len(lp.target.elts) == 2:
+            idx, val = [dotted(e) for e in lp.target.elts]
+            cn = [a for a in ast.walk(lp) if isinstance(a, ast.Assign) and isinstance(a.targets[0], ast.Attribute) and a.targets[0].attr == "case_name" and dotted(a.targets[0].value) == val]
+            sn = [a for a in ast.walk(lp) if isinstance(a, ast.Assign) and isinstance(a.targets[0], ast.Attribute) and a.targets[0].attr == "subcase_name" and dotted(a.targets[0].value) == val]
+            ok = (len(cn) == 1 and dotted(cn[0].value) == "%s.__name__" % fparam and len(sn) == 1 and isinstance(sn[0].value, ast.Call) and dotted(sn[0].value.func) == "str" and len(sn[0].value.args) == 1 and dotted(sn[0].value.args[0]) == idx)
     res.check(ok, "C24.e", "normalise:names-from-function-and-position", "%s:normalise_test_case_generator" % nm.rel, "default case names must come from the generator's name and default sub-case names from the position in its output", by="case_name = f.__name__; subcase_name = str(i)")
     # what is pickled: partial(set_log_level_and_call, log_level, output_*_test_cases, output_dir, codec_features, generator_function)
     cm = repo.mod(GEN + ".cli")
@@ -408,7 +414,10 @@ def rule_e(repo, res):
     res.check(ok, "C24.e", "main:same-units-serial-and-parallel", "%s:main" % cm.rel, "the serial run and the emitted commands must iterate the same list of units", by="both branches iterate to_call")
     wm = repo.mod(GEN + ".worker")
     enc, dec = wm.funcs.get("encode"), wm.funcs.get("decode")
-    ok = enc is not None and dec is not None and "pickle.dumps(partial(fn, *args, **kwargs))" in norm(enc) and "pickle.loads" in norm(dec)
+    ok = enc is not None and dec is not None
+    if ok:
+        dumps = [c for c in ast.walk(enc) if isinstance(c, ast.Call) and dotted(c.func) == "pickle.dumps"]
+        ok = len(dumps) == 1 and dumps[0].args and isinstance(dumps[0].args[0], ast.Call) and dotted(dumps[0].args[0].func) == "partial" and dotted(dumps[0].args[0].args[0]) == enc.args.args[0].arg and any(isinstance(c, ast.Call) and dotted(c.func) == "pickle.loads" for c in ast.walk(dec))
     chain_e = [dotted(c.func) for c in ast.walk(enc) if isinstance(c, ast.Call)] if enc else []
     chain_d = [dotted(c.func) for c in ast.walk(dec) if isinstance(c, ast.Call)] if dec else []
     inv = {"base64.urlsafe_b64encode": "base64.urlsafe_b64decode", "zlib.compress": "zlib.decompress", "pickle.dumps": "pickle.loads"}
